@@ -1,6 +1,12 @@
 """In-memory TimeSeriesDatabase plugin (public plugin API) that logs every call with the
 virtual time and consults a generated fault plan (DESIGN.md 2.4)."""
 from . import env
+import errno as _errno
+import os
+
+ERRNOS = {'eintr': _errno.EINTR, 'eagain': _errno.EAGAIN, 'enospc': _errno.ENOSPC}
+FAULT_KINDS = ('ioerror', 'exception', 'eintr', 'eagain', 'enospc')
+
 
 _cls = None
 
@@ -34,6 +40,9 @@ def ensure_registered():
       self.calls.append(rec)
       if self.on_call is not None:
         self.on_call(rec)
+      if fault in ERRNOS:
+        # transient-looking and permanent errno values alike: the call failed, nothing was written
+        raise OSError(ERRNOS[fault], os.strerror(ERRNOS[fault]) + ' (injected)')
       if fault == 'ioerror':
         # the same text every time, as a backend that stays down produces (EIO from the same device)
         raise IOError(5, 'Input/output error (injected)')
